@@ -25,6 +25,10 @@
    matches[-1] in the retry scan                  lookup_scan e buffer[:i]
    is_prefix_of_longer_match and no eager match   waits e buffer
    handler.call(event)                            eff b key_sequence e = (e', Some r) when it calls app.exit(r)
+   _handle_cpr_response: the last active binding   cpr_lookup e
+     whose keys are exactly (CPRResponse,)
+   "if retry and get_app().is_done": the keys     pb (push-back), put in front of the queue by process_q
+     left in the buffer go back to input_queue
 *)
 From Coq Require Import ZArith List Bool.
 From PTK Require Import Lib.Py Gen.C03_AnsiSequences Model.C03_Vt100Parser.
@@ -74,6 +78,7 @@ Variable lookup_scan : E -> list kp -> option bid.
 Variable waits : E -> list kp -> bool.
 Variable eff : bid -> list kp -> E -> E * option res.
 Variable is_cprh : bid -> bool.          (* the binding of bindings/cpr.py *)
+Variable cpr_lookup : E -> option bid.   (* _handle_cpr_response: the binding a report is delivered to *)
 Variable restart : E -> E.               (* what a new prompt() resets *)
 Variable pfeed : str -> PS -> PS * list kp.
 Variable pflush : PS -> PS * list kp.
@@ -96,16 +101,18 @@ Record core := mkcore {
   wcpr : nat;
   rlog : list ev;           (* newest first *)
   oof : bool;               (* a fuelled loop ran out (never: C17_fuel) *)
-  cpr_bad : bool            (* ghost: a CPR key press was not consumed by the CPR handler alone *)
+  pb : list kp              (* keys the coroutine pushed back to the front of input_queue *)
 }.
 
 Definition late (c : core) : bool := match cph c with CRun => false | _ => true end.
-Definition set_kbuf (b : list kp) (c : core) := mkcore (est c) b (cph c) (wcpr c) (rlog c) (oof c) (cpr_bad c).
-Definition set_oof (c : core) := mkcore (est c) (kbuf c) (cph c) (wcpr c) (rlog c) true (cpr_bad c).
-Definition set_bad (c : core) := mkcore (est c) (kbuf c) (cph c) (wcpr c) (rlog c) (oof c) true.
-Definition set_cph (p : cphase) (c : core) := mkcore (est c) (kbuf c) p (wcpr c) (rlog c) (oof c) (cpr_bad c).
-Definition set_wcpr (n : nat) (c : core) := mkcore (est c) (kbuf c) (cph c) n (rlog c) (oof c) (cpr_bad c).
-Definition add_ev (e : ev) (c : core) := mkcore (est c) (kbuf c) (cph c) (wcpr c) (e :: rlog c) (oof c) (cpr_bad c).
+Definition set_kbuf (b : list kp) (c : core) := mkcore (est c) b (cph c) (wcpr c) (rlog c) (oof c) (pb c).
+Definition set_oof (c : core) := mkcore (est c) (kbuf c) (cph c) (wcpr c) (rlog c) true (pb c).
+Definition clear_pb (c : core) := mkcore (est c) (kbuf c) (cph c) (wcpr c) (rlog c) (oof c) [].
+(* self.input_queue.extendleft(reversed(buffer)); del buffer[:] *)
+Definition push_back (c : core) := mkcore (est c) [] (cph c) (wcpr c) (rlog c) (oof c) (kbuf c ++ pb c).
+Definition set_cph (p : cphase) (c : core) := mkcore (est c) (kbuf c) p (wcpr c) (rlog c) (oof c) (pb c).
+Definition set_wcpr (n : nat) (c : core) := mkcore (est c) (kbuf c) (cph c) n (rlog c) (oof c) (pb c).
+Definition add_ev (e : ev) (c : core) := mkcore (est c) (kbuf c) (cph c) (wcpr c) (e :: rlog c) (oof c) (pb c).
 
 (* _call_handler: Application.exit raises when the result is already set *)
 Definition call (b : bid) (ks : list kp) (c : core) : core :=
@@ -116,7 +123,7 @@ Definition call (b : bid) (ks : list kp) (c : core) : core :=
           | Some x => match cph c with CRun => CDone x | _ => CBroken end
           end)
          (if is_cprh b then pred (wcpr c) else wcpr c)
-         (EInvoke (late c) b ks :: rlog c) (oof c) (cpr_bad c).
+         (EInvoke (late c) b ks :: rlog c) (oof c) (pb c).
 
 (* for i in range(len(buffer), 0, -1): matches = _get_matches(buffer[:i]) ... break *)
 Fixpoint scan (i : nat) (c : core) : option (bid * nat) :=
@@ -130,7 +137,12 @@ Fixpoint scan (i : nat) (c : core) : option (bid * nat) :=
 
 (* One activation of KeyProcessor._process from "key = yield" to the next
    yield: the body of "while True" repeated while retry is set; retries run
-   with flush = False. *)
+   with flush = False.  At the top of a retry pass, when a handler has set the
+   application result, the keys left in the buffer are pushed back to the
+   front of the input queue and the coroutine yields. *)
+Definition retry (k : core -> core) (c1 : core) : core :=
+  if late c1 then push_back c1 else k c1.
+
 Fixpoint loop (fuel : nat) (flush : bool) (c : core) : core :=
   match kbuf c with
   | [] => c
@@ -143,33 +155,38 @@ Fixpoint loop (fuel : nat) (flush : bool) (c : core) : core :=
           | _ =>
             if negb flush && waits (est c) (kbuf c) then c
             else match lookup (est c) (kbuf c) with
-                 | Some b => set_kbuf [] (call b (kbuf c) c)
+                 | Some b => set_kbuf [] (call b (kbuf c) c)     (* del buffer[:] after the call *)
                  | None =>
                      match scan (length (kbuf c)) c with
                      | Some (b, i) =>
-                         let c1 := call b (firstn i (kbuf c)) c in
-                         loop f false (set_kbuf (skipn i (kbuf c)) c1)
-                     | None => loop f false (set_kbuf tl0 (add_ev (EDrop (late c) k0) c))
+                         retry (loop f false) (set_kbuf (skipn i (kbuf c)) (call b (firstn i (kbuf c)) c))
+                     | None => retry (loop f false) (set_kbuf tl0 (add_ev (EDrop (late c) k0) c))
                      end
                  end
           end
       end
   end.
 
-(* this CPR key press will be consumed by the CPR handler and nothing else *)
-Definition cpr_alone (c : core) (k : kp) : bool :=
-  match kbuf c with
-  | [] => negb (waits (est c) [k]) &&
-          match lookup (est c) [k] with Some b => is_cprh b | None => false end
-  | _ => false
-  end.
-
 Definition send (it : item) (c : core) : core :=
   match it with
-  | IKey k =>
-      let c1 := if is_cpr k && negb (cpr_alone c k) then set_bad c else c in
-      loop (S (S (length (kbuf c)))) false (set_kbuf (kbuf c ++ [k]) c1)
+  | IKey k => loop (S (S (length (kbuf c)))) false (set_kbuf (kbuf c ++ [k]) c)
   | IFlush => loop (S (length (kbuf c))) true c
+  end.
+
+(* _handle_cpr_response: binding.call(event) on the report binding; the key
+   buffer, the repetition argument and the previous-key bookkeeping are not
+   touched *)
+Definition handle_cpr (k : kp) (c : core) : core :=
+  match cpr_lookup (est c) with
+  | Some b => call b [k] c
+  | None => c
+  end.
+
+(* process_keys: "if is_cpr: self._handle_cpr_response(key_press) else: self._process_coroutine.send(key_press)" *)
+Definition deliver (it : item) (c : core) : core :=
+  match it with
+  | IKey k => if is_cpr k then handle_cpr k c else send it c
+  | IFlush => send it c
   end.
 
 Record sys := mksys {
@@ -195,16 +212,20 @@ Definition with_queue (q : list item) (s : sys) :=
    While the result is not set the queue is popped from the left; once it is
    set only CPRResponse key presses are taken out (first one first), the other
    items stay where they are.  Written as one pass over the queue: the items
-   skipped in the second mode are returned in order. *)
+   skipped in the second mode are returned in order; keys the coroutine pushed
+   back (the result is set then) go in front of them. *)
 Fixpoint process_q (q : list item) (c : core) : core * list item :=
   match q with
   | [] => (c, [])
   | it :: q' =>
       match cph c with
       | CBroken => (c, q)
-      | CRun => process_q q' (send it c)
+      | CRun =>
+          let c' := deliver it c in
+          let r := process_q q' (clear_pb c') in
+          (fst r, map IKey (pb c') ++ snd r)
       | CDone _ =>
-          if item_is_cpr it then process_q q' (send it c)
+          if item_is_cpr it then process_q q' (deliver it c)
           else let r := process_q q' c in (fst r, it :: snd r)
       end
   end.
@@ -273,7 +294,7 @@ Definition step (s : sys) (l : label) : sys :=
       | Detached =>
           let c := co s in
           let lg := match kbuf c, queue s with [], [] => rlog c | _, _ => ELost (kbuf c) (queue s) :: rlog c end in
-          pk (mksys (mkcore (restart (est c)) [] CRun (wcpr c) (EStart :: lg) (oof c) (cpr_bad c))
+          pk (mksys (mkcore (restart (est c)) [] CRun (wcpr c) (EStart :: lg) (oof c) (pb c))
                     (par s) (pipe s) (wclosed s) (store s) [] Attached (results s) (decoded s) (rcpr s) (soof s))
       | _ => s
       end
@@ -306,7 +327,7 @@ Definition step (s : sys) (l : label) : sys :=
 
 Definition run (ls : list label) (s : sys) : sys := fold_left step ls s.
 
-Definition init_core (e : E) : core := mkcore e [] CRun O [] false false.
+Definition init_core (e : E) : core := mkcore e [] CRun O [] false [].
 Definition init (e : E) (p : PS) (r : bool) : sys :=
   mksys (init_core e) p [] false [] [] Detached [] [] r false.
 
